@@ -188,6 +188,32 @@ pub fn run(ctx: &Ctx, rep: &mut Report) {
           t.output.iter().any(|o| o.script_pubkey.as_bytes().starts_with(&[0x6a, 0x5d])),
         ));
       }
+      let mut txdata = txdata;
+      if sc.prop == "C16" {
+        // consensus limit: 4,000,000 weight units per block; generate again
+        // (the coinbase claims the fees, so transactions cannot just be dropped)
+        let mut tries = 0;
+        while txdata.iter().map(|t| t.weight().to_wu()).sum::<u64>() > 3_900_000 {
+          rep.count("blocks_regenerated_at_the_weight_limit");
+          txdata = run.bgen.block(&mut rng, &run.model, height);
+          tries += 1;
+          if tries > 20 {
+            break;
+          }
+        }
+        rep.max("max_block_weight", txdata.iter().map(|t| t.weight().to_wu()).sum::<u64>());
+        // the node hands blocks to ord in consensus encoding: a generated
+        // transaction that does not survive it is the generator's mistake
+        if let Some((i, t)) = txdata.iter().enumerate().find(|(_, t)| bitcoin::consensus::deserialize::<bitcoin::Transaction>(&bitcoin::consensus::serialize(*t)).is_err()) {
+          rep.inconclusive(format!(
+            "generator produced a transaction that does not round-trip through consensus encoding (tx {i}: {} inputs, {} outputs, witness sizes {:?})",
+            t.input.len(),
+            t.output.len(),
+            t.input.iter().map(|inp| inp.witness.iter().map(|e| e.len()).collect::<Vec<_>>()).collect::<Vec<_>>()
+          ));
+          break;
+        }
+      }
       let displaced_before = run.model.sats.displaced_outputs;
       let block = run.node.push_block(txdata);
       run.model.apply_block(&block);
